@@ -216,3 +216,17 @@ PROPS["C02"] = dict(
     technique="Lean 4 proof of the symmetry bookkeeping for an arbitrary core + exact wrapper correspondence + oracle closure",
     assumptions=["AngDiff/AngRound/LatFix models of C16"],
 )
+
+
+# ---- per-property plug-ins: tools/props.d/Cxx.py executes with PROPS in scope --------------------------------
+import glob as _glob, os as _os
+for _f in sorted(_glob.glob(_os.path.join(_os.path.dirname(_os.path.abspath(__file__)), "props.d", "*.py"))):
+    exec(compile(open(_f).read(), _f, "exec"), {"PROPS": PROPS, "__file__": _f})
+
+# generators of tools/translate.py each property's model/theorems read (a translator failure in another generator
+# is not this property's broken correspondence)
+_GENS = {"C16": ["gen_math"], "C18": ["gen_math", "gen_gridcodes"], "C04": ["gen_math", "gen_utm"], "C05": ["gen_math", "gen_utm"],
+         "C08": ["gen_math"], "C20": ["gen_geoid"], "C12": ["gen_mask"], "C07": [], "C01": ["gen_geodseries", "gen_math"],
+         "C02": ["gen_math"], "C03": ["gen_geodseries", "gen_math"]}
+for _k, _v in _GENS.items():
+    PROPS[_k].setdefault("gens", _v)
